@@ -406,6 +406,8 @@ def sc_multiscale(ctx, d, case):
         args += ['--gradation', d['grad']]
     if 'ar' in d:
         args += ['--aspect-ratio', d['ar']]
+    if d.get('buffer') == '1':
+        args += ['--buffer']
     rc, tail = run_ref(ctx, np, args, case)
     return 'rc=%d dir=%s' % (rc, case)
 
@@ -447,7 +449,10 @@ def oracle_multiscale(ops, impl):
 
 
 def gen_multiscale(rng, tier, np=None):
-    ops = []
+    # first op: regression for /repo 'fix: scale and re-embed planar metrics in ref_metric_buffer_at_complexity'
+    # (known_findings: ref_metric_buffer_at_complexity:2d-exponent-and-embedding)
+    ops = ['multiscale dim=2 n=%d,%d jitter=0 mseed=1 field=tanh:20.00,0.30,0.60 complexity=500 buffer=1%s' % (
+        rng.randint(9, 13), rng.randint(9, 13), (' np=%d' % np) if np else '')]
     for _ in range(6 if tier == 'quick' else 30):
         dim = rng.choice([2, 3, 3])
         n = [rng.randint(2, 4) for _ in range(dim)]
@@ -464,6 +469,8 @@ def gen_multiscale(rng, tier, np=None):
             op += ' grad=%s' % rng.choice(['-1', '1.2', '1.5', '3'])
         if rng.random() < 0.5:
             op += ' ar=%s' % rng.choice(['-1', '1', '10', '1000'])
+        if rng.random() < 0.2:
+            op += ' buffer=1'
         if np:
             op += ' np=%d' % np
         ops.append(op)
